@@ -23,6 +23,9 @@ LCM_LIMIT = 10**6
 
 
 # ----------------------------------------------------------------------------- alpha
+SNAP = False  # set for traces of observed library code whose own float arithmetic leaves the grid by an ulp
+
+
 def to_units(x, unit):
     """Observed float volume -> integer number of units (sentinel if not on the grid)."""
     try:
@@ -32,6 +35,10 @@ def to_units(x, unit):
     if not math.isfinite(xf):
         return SENT
     q = Fraction(xf) / unit
+    if SNAP and q.denominator != 1:
+        n = round(q)
+        if abs(q - n) < Fraction(1, 10**6):
+            q = Fraction(n)
     if q.denominator != 1 or abs(q.numerator) >= 2**31 - 1:
         return SENT
     return int(q.numerator)
@@ -358,8 +365,10 @@ class Twin:
 
     # ------------------------------------------------------------------ one operation
     def run_op(self, op, pres):
-        """Executes one abstract operation; returns the logged event."""
+        """Executes one abstract operation; returns the logged event (a list of events for composite ones)."""
         name = op["op"]
+        if name == "dilution":
+            return self._dilution(op)
         unit = self.unit
         wl = self.wl
         a = {}
@@ -531,6 +540,176 @@ class Twin:
         extra["cs"] = cs
         ev.update(extra)
         return ev
+
+    # ------------------------------------------------------------------ observing library code (C14)
+    def _lw_index(self, obj):
+        for i, lw in enumerate(self.lws):
+            if lw is obj:
+                return i
+        raise RuntimeError("observed call on a labware that is not part of the program")
+
+    @staticmethod
+    def _obs_wells(x):
+        from .calls import _parse_wid
+
+        a = np.asarray(x)
+        if a.ndim == 0:
+            return {"k": "s", "x": _parse_wid(str(a))}
+        if a.ndim == 1:
+            return {"k": "l", "x": [_parse_wid(str(e)) for e in a]}
+        return {"k": "m", "x": [[_parse_wid(str(e)) for e in row] for row in a]}
+
+    def _obs_vols(self, x):
+        a = np.asarray(x, dtype=float)
+        u = lambda v: to_units(v, self.unit)
+        if a.ndim == 0:
+            return {"k": "s", "x": u(a)}
+        if a.ndim == 1:
+            return {"k": "l", "x": [u(e) for e in a]}
+        return {"k": "m", "x": [[u(e) for e in row] for row in a]}
+
+    def _observe_worklist(self, sink):
+        """Wrap transfer / commit of the worklist instance so that every call made by library code
+        (DilutionPlan.to_worklist) is logged as an ordinary event. Returns a function that removes the wrappers."""
+        wl = self.wl
+        orig_transfer, orig_commit = wl.transfer, wl.commit
+        tw = self
+        depth = [0]
+
+        def transfer(source, source_wells, destination, destination_wells, volumes, *, label=None, wash_scheme=1,
+                     partition_by="auto", **kwargs):
+            op = {"op": "transfer", "src": tw._lw_index(source), "sw": tw._obs_wells(source_wells), "dst": tw._lw_index(destination),
+                  "dw": tw._obs_wells(destination_wells), "vols": tw._obs_vols(volumes), "label": label, "wash": wash_scheme,
+                  "pby": partition_by}
+            kw = {}
+            for py, k in (("liquid_class", "lc"), ("rack_id", "rackid"), ("rack_type", "racktype"), ("tube_id", "tube"), ("forced_rack_type", "frt")):
+                if py in kwargs:
+                    kw[k] = kwargs[py]
+            op["kw"] = kw
+            a = tw._transfer_log(op)
+            exc = None
+            depth[0] += 1
+            try:
+                orig_transfer(source, source_wells, destination, destination_wells, volumes, label=label, wash_scheme=wash_scheme,
+                              partition_by=partition_by, **kwargs)
+            except Exception as e:  # noqa
+                exc = e
+            finally:
+                depth[0] -= 1
+            sink.append(tw._finish_event("transfer", a, exc, label if isinstance(label, str) else None, {"tiesbig": _ties_big(op)}))
+            if exc is not None:
+                raise exc
+
+        def commit():
+            if depth[0] > 0:  # a break emitted by transfer() itself, part of that event
+                return orig_commit()
+            exc = None
+            try:
+                orig_commit()
+            except Exception as e:  # noqa
+                exc = e
+            sink.append(tw._finish_event("emit", {"fn": "commit"}, exc, None, {}))
+            if exc is not None:
+                raise exc
+
+        wl.transfer, wl.commit = transfer, commit
+
+        def undo():
+            del wl.transfer
+            del wl.commit
+
+        return undo
+
+    def _transfer_log(self, op):
+        oplabel = op.get("label")
+        return {
+            "src": op["src"] + 1,
+            "dst": op["dst"] + 1,
+            "sw": log_wells(op["sw"]),
+            "dw": log_wells(op["dw"]),
+            "vols": log_vols(op["vols"]),
+            "label": label_arg(oplabel),
+            "labelok": not (isinstance(oplabel, str) and ";" in oplabel),
+            "wash": str(op.get("wash", 1)),
+            "pby": op.get("pby", "auto"),
+            "kw": kw_log(op.get("kw", {})),
+        }
+
+    def _finish_event(self, name, a, exc, oplabel, extra):
+        post, cs = self.project(oplabel)
+        recs, prefix_ok, wlen = self.new_records(bool(self.prog.get("flags", {}).get("file")))
+        ev = {"op": name, "a": a, "out": outcome_class(exc), "post": post, "recs": recs, "wprefix": prefix_ok, "wlen": wlen,
+              "cs": cs, "tiesbig": False}
+        ev.update(extra)
+        return ev
+
+    def _dilution(self, op):
+        """DilutionPlan(...).to_worklist(...): the transfers and commits it performs are observed one by one,
+        followed by a summary event with the plan and what was consumed."""
+        from .calls import plan_params_python, project_plan
+
+        rt = self.rt
+        p = op["params"]
+        events = []
+        exc = None
+        proj = {"instr": [], "x": [], "xsup": False, "vstock": -1, "vdiluent": -1, "vmaxobs": [], "Robs": 0, "Cobs": 0}
+        stock, diluent, plate = self.lws[op["stock"]], self.lws[op["diluent"]], self.lws[op["plate"]]
+        dest = self.lws[op["dest"]] if op.get("dest") is not None else None
+        before = [proj_vol(lw, self.unit) for lw in self.lws]
+        plan = None
+        try:
+            plan = rt.DilutionPlan(**plan_params_python(p))
+            proj = project_plan(plan, p)
+        except Exception as e:  # noqa
+            exc = e
+        if plan is not None:
+            undo = self._observe_worklist(events)
+            try:
+                kw = {}
+                for k in ("mix_threshold", "mix_repeat", "mix_volume", "mix_wash"):
+                    if k in op:
+                        kw[k] = op[k]
+                if dest is not None:
+                    kw["destination_plate"] = dest
+                    kw["v_destination"] = vol_float(op["v_dest"], self.unit)
+                plan.to_worklist(worklist=self.wl, stock=stock, stock_column=op.get("stock_column", 0), diluent=diluent,
+                                 diluent_column=op.get("diluent_column", 0), dilution_plate=plate, **kw)
+            except Exception as e:  # noqa
+                exc = e
+            finally:
+                undo()
+        after = [proj_vol(lw, self.unit) for lw in self.lws]
+        # fraction of the stock component in the wells of the dilution plate
+        from fractions import Fraction
+
+        sc = op.get("stock_column", 0)
+        names = [nm for nm, arr in stock.composition.items() if arr[0, sc] == 1]
+        frac, fsup = [], bool(names)
+        R, C = p["R"], p["C"]
+        if names and plan is not None:
+            arr = plate.composition.get(names[0])
+            for r in range(R):
+                row = []
+                for c in range(C):
+                    f = float(arr[r, c]) if arr is not None else 0.0
+                    if not math.isfinite(f):
+                        row.append([-1, 1])
+                        fsup = False
+                        continue
+                    fr = Fraction(f).limit_denominator(10**6)
+                    if abs(float(fr) - f) > 1e-13:
+                        fsup = False
+                    row.append([fr.numerator, fr.denominator])
+                frac.append(row)
+        vmax = p["vmax"] if len(p["vmax"]) == p["C"] else [p["vmax"][0]] * p["C"]
+        a = {"R": R, "C": C, "stock": p["stock"], "vmax": vmax, "mint10": p["mint10"], "small": max(vmax) <= 50,
+             "stocklw": op["stock"] + 1, "stockcol": sc, "diluentlw": op["diluent"] + 1, "diluentcol": op.get("diluent_column", 0),
+             "platelw": op["plate"] + 1, "hasdest": dest is not None, "frac": frac, "fsup": bool(fsup and frac),
+             "before": before, "after": after, "upm": int(1 / self.unit) if self.unit.numerator == 1 else 0,
+             "roomy": bool(op.get("roomy", True)), "planned": plan is not None}
+        a.update(proj)
+        events.append(self._finish_event("dilution", a, exc, None, {}))
+        return events
 
     # ------------------------------------------------------------------ low level emitters (C09)
     @staticmethod
@@ -713,6 +892,8 @@ def _ties_big(op):
 # ----------------------------------------------------------------------------- whole programs
 def execute(prog):
     """Run a program; returns the trace (header + events) for Trace_Twin."""
+    global SNAP
+    SNAP = bool(prog.get("snap", False))
     tw = Twin(prog)
     try:
         unit = tw.unit
@@ -745,8 +926,10 @@ def execute(prog):
         pres = prog.get("pres", [])
         for i, op in enumerate(prog["ops"]):
             p = pres[i] if i < len(pres) else {}
-            events.append(tw.run_op(op, p))
+            ev = tw.run_op(op, p)
+            events.extend(ev if isinstance(ev, list) else [ev])
         hdr["events"] = events
         return hdr
     finally:
+        SNAP = False
         tw.close()
